@@ -307,4 +307,19 @@ theorem dropped_map_mkDrop (l : List (Nat × Nat)) : dropped (l.map mkDrop) = l 
   | nil => rfl
   | cons p ps ih => simp [mkDrop, dropped, ih]
 
+/-! ## Example types used by the non-vacuity examples of `Props/C03Glue.lean` -/
+namespace Ex
+def tk : GTy := .leaf 1 16 8 true
+def str : GTy := .leaf 2 16 8 true
+def u64 : GTy := .leaf 0 8 8 false
+def u8 : GTy := .leaf 0 1 1 false
+
+/-- `enum F { P(u64, Tk), S(u8, String, u64, Tk), T(Tk, u64), Z }` -/
+def exF : GTy := .enum
+  (.cons (.cons u64 (.cons tk .nil))
+  (.cons (.cons u8 (.cons str (.cons u64 (.cons tk .nil))))
+  (.cons (.cons tk (.cons u64 .nil))
+  (.cons .nil .nil))))
+end Ex
+
 end RotoV.Glue
